@@ -116,6 +116,8 @@ pub struct HandlerState {
     pub senders: Vec<(String, servlin::EventSender)>,
     /// Bodies larger than this are not copied into the call log (digest only) - not used yet.
     pub max_in_memory_seen: usize,
+    /// When set, builds the answer for requests whose body is ready (after logging the call).
+    pub custom: Option<Box<dyn Fn(&Request) -> Response>>,
 }
 
 thread_local! {
@@ -191,6 +193,14 @@ pub fn scripted_handler(req: Request) -> Response {
         h.calls.push(call);
         h.plans.get(&path).cloned().or_else(|| h.default_plan.clone())
     });
+    if !pending {
+        let custom = HANDLER.with(|h| h.borrow_mut().custom.take());
+        if let Some(f) = custom {
+            let resp = f(&req);
+            HANDLER.with(|h| h.borrow_mut().custom = Some(f));
+            return resp;
+        }
+    }
     let plan = match plan {
         Some(p) => p,
         None => return Response::new(299),
